@@ -237,3 +237,17 @@ package header
 //@   loop 0 invariant length == "" ==> forall a int, b int :: 0 <= a && a <= rangeindex && a < ncl(req.Header) && 0 <= b && b < nparts(cl(req.Header, a)) ==> tr(cl(req.Header, a), b) == ""
 //@   loop 1 invariant length == "" ==> forall b int :: 0 <= b && b <= rangeindex && b < nparts(ls) ==> tr(ls, b) == ""
 //@   at call 0 of Set before set clCanon = arg1
+
+// C12: building the filter from its JSON form: "modifier" feeds the two when-true branches, "else" the two when-false
+// branches, each side with its own projection of the parsed subtree; the filter is offered under the message's scope.
+//@ extern func parse.FromJSON
+//@   ensures (result1 == nil) == (result0 != nil)
+//@ extern func json.Unmarshal
+//@   modifies filterJSON.*
+//@ func filterFromJSON
+//@   serves C12
+//@   at call 0 of RequestWhenTrue before assert[then-branch-request-side-from-modifier] self == filter.Filter && arg0 == m.reqmod
+//@   at call 0 of ResponseWhenTrue before assert[then-branch-response-side-from-modifier] self == filter.Filter && arg0 == m.resmod
+//@   at call 0 of RequestWhenFalse before assert[else-branch-request-side-from-else] self == filter.Filter && arg0 == em.reqmod
+//@   at call 0 of ResponseWhenFalse before assert[else-branch-response-side-from-else] self == filter.Filter && arg0 == em.resmod
+//@   at call 0 of NewResult before assert[the-filter-is-offered-under-the-message-scope] arg0 == iface(filter) && arg1 == msg.Scope
